@@ -320,9 +320,22 @@ func (f *fidRef) markChildDeleted(name string) {
 // Precondition: this must be called via safelyGlobal.
 func notifyNameChange(pn *pathNode) {
 	// Call on all local references.
+	//
+	// Hold a reference during the callback, as removeWithName does: another
+	// connection may be dropping its last reference right now, and no method
+	// may be called on a File once its Close has begun. The references are
+	// dropped after forEachChildRef has released childMu, since dropping the
+	// last one comes back to this node via removeChild.
+	var held []*fidRef
 	pn.forEachChildRef(func(ref *fidRef, name string) {
-		ref.file.Renamed(ref.parent.file, name)
+		if ref.TryIncRef() {
+			held = append(held, ref)
+			ref.file.Renamed(ref.parent.file, name)
+		}
 	})
+	for _, ref := range held {
+		ref.DecRef()
+	}
 
 	// Call on all subtrees.
 	pn.forEachChildNode(func(pn *pathNode) {
